@@ -67,6 +67,7 @@ BinOp(op, a, b) ==
   CASE op = "+"  -> IntV(a.v + b.v)
     [] op = "-"  -> IntV(a.v - b.v)
     [] op = "*"  -> IntV(a.v * b.v)
+    [] op = "%"  -> IntV(a.v % b.v)     \* generators use it on non-negative operands only (keeps values inside TLC's 32 bits)
     [] op = "<"  -> BoolV(a.v < b.v)
     [] op = "<=" -> BoolV(a.v <= b.v)
     [] op = ">"  -> BoolV(a.v > b.v)
